@@ -1,5 +1,6 @@
 """C19 — measurements carry uncertainty consistently through conversion and arithmetic."""
 from __future__ import annotations
+import warnings
 
 import io
 import math
@@ -425,8 +426,40 @@ class Check(Property):
                     v.append(f"C19 notation in an expression {expr!r}: units {getattr(r2, 'units', None)}, expected {wu}")
         return v
 
+    def bare_operand_probe(self, u):
+        """the same unit rules as plain quantities: a bare operand of + - and comparisons is accepted for a dimensional quantity
+        only when it IS zero (0, 0.0, an uncertain zero with no uncertainty) - an uncertain number with nominal value 0 and a
+        non-zero standard deviation is not zero"""
+        import operator
+        from uncertainties import ufloat
+        v = []
+        lefts = [("Measurement(5.0, 0.2, m)", lambda: u.Measurement(5.0, 0.2, "meter")), ("Quantity(ufloat(5.0, 0.2), m)", lambda: u.Quantity(ufloat(5.0, 0.2), "meter")),
+                 ("Quantity(5.0, m)", lambda: u.Quantity(5.0, "meter"))]
+        bares = [("0", 0, True), ("0.0", 0.0, True), ("ufloat(0, 0)", ufloat(0.0, 0.0), True), ("ufloat(0.0, 0.1)", ufloat(0.0, 0.1), False),
+                 ("ufloat(0.0, 3.0)", ufloat(0.0, 3.0), False), ("0.1", 0.1, False), ("ufloat(0.1, 0.1)", ufloat(0.1, 0.1), False)]
+        with warnings.catch_warnings():
+            warnings.simplefilter("ignore")
+            for ln, mk in lefts:
+                for bn, bare, is_zero in bares:
+                    for on, fn in (("+", lambda q: q + bare), ("-", lambda q: q - bare), ("reflected +", lambda q: bare + q),
+                                   ("reflected -", lambda q: bare - q), (">", lambda q: q > bare)):
+                        try:
+                            fn(mk())
+                            accepted = True
+                        except Exception:  # noqa: BLE001
+                            accepted = False
+                        if accepted != is_zero:
+                            v.append(f"C19 {ln} {on} {bn}: {'accepted' if accepted else 'refused'}; a bare operand is combined with a dimensional "
+                                     f"quantity exactly when it is zero")
+        return v[:8]
+
     def oracle_arith(self, u, c):
         v = []
+        if not getattr(self, "_bare_done", False):
+            self._bare_done = True
+            v += self.bare_operand_probe(u)
+            if v:
+                return v
         a = u.Measurement(float(Fraction(c["a"]["n"])), float(Fraction(c["a"]["s"])), c["a"]["u"])
         b = u.Measurement(float(Fraction(c["b"]["n"])), float(Fraction(c["b"]["s"])), c["b"]["u"])
         pa, pb = u.Quantity(a.magnitude.nominal_value, a.units), u.Quantity(b.magnitude.nominal_value, b.units)
